@@ -10,7 +10,7 @@ tmp=$(mktemp -d /tmp/runseed.XXXX)
 one() {
   id=$1
   t0=$(date +%s)
-  log=$(VERIF_WORKERS=$(( 16 / par )) tools/mutant_iso.sh seeded/$id/patch.diff $id $budget 2>&1)
+  log=$(VERIF_WORKERS=$(( 16 / par )) tools/mutant_iso.sh seeded/$id/patch.diff ${id%%-*} $budget 2>&1)
   rc=$(echo "$log" | sed -n 's/^mutant .* exit=\([0-9]*\)$/\1/p' | tail -1)
   inv=$(echo "$log" | sed -n 's/^  invariant=\([^ ]*\).*/\1/p' | sort -u | tr '\n' ',' | sed 's/,$//')
   runs=$(echo "$log" | sed -n 's/.* quick: runs=\([0-9]*\).*/\1/p' | tail -1)
